@@ -919,6 +919,8 @@ class Executor(ExprMixin):
         if self.deadline and time.time() > self.deadline:
             raise NotFormed(f'path exploration exceeded its budget of {GEN_BUDGET_S} s (too many paths: '
                             'a loop without invariant, or an unsplit case analysis)')
+        if self.depth == 0:
+            self.cur_line = getattr(n, 'lineno', None)
         m = getattr(self, 's_' + type(n).__name__, None)
         if m is None:
             raise NotFormed(f'statement {type(n).__name__} is outside the subset')
@@ -1633,7 +1635,8 @@ class Executor(ExprMixin):
                     continue
                 else:
                     self.vc(fl.st, f'{self.c.name}.no_raise.{fl.val}', z3.BoolVal(False), True,
-                            f'{fl.val} is reachable but not allowed by the contract')
+                            f'{fl.val} is reachable (statement at line {fl.st.ghost.get("exc_line")} of the function\'s module) '
+                            'but not allowed by the contract')
             else:
                 raise NotFormed('break/continue outside a loop')
         return self.vcs
